@@ -12,18 +12,19 @@ Definition ppc_rank (pc : ppc) : nat :=
   | PEpiTest => 9 | PEpiClose => 8 | PFinAcq => 7 | PFinRemove => 6 | PFinRel => 5
   | PEpiRelT => 4 | PDone => 0
   end.
-Definition pm (p : player) : nat := 20 * length (prem p) + ppc_rank (ppc_ p).
+Definition pm (p : player) : nat :=
+  20 * length (prem p) + ppc_rank (ppc_ p) + pfill p + list_sum (ppulls p).
 Definition players_measure (l : list player) : nat := list_sum (map pm l).
 
 (* ---- main thread *)
 Definition LOOPW : nat := 10.      (* weight of one element of manager._threads *)
-Definition new_budget (a : list chunk) : nat := 20 * length a + 20.
+Definition new_budget (a : list chunk) (pl : list nat) : nat := 20 * length a + 20 + list_sum pl.
 
 (* upper bound of len(manager._started) when the current play call has finished *)
 Definition started_bound (s : state) : nat :=
   match smpc s with
   | MPlayPrune _ todo kept => length todo + length kept + 1
-  | MPlayAcq _ _ | MPlayGoSet _ | MPlayHaltInit _ | MPlayOpen _ | MPlayAppend _ => length (sstarted s) + 1
+  | MPlayAcq _ _ _ | MPlayGoSet _ | MPlayHaltInit _ | MPlayOpen _ | MPlayAppend _ => length (sstarted s) + 1
   | _ => length (sstarted s)
   end.
 
@@ -33,7 +34,7 @@ Definition tail (S : nat) : nat := S + 6.
 
 Definition cur (s : state) (S : nat) : nat :=
   match smpc s with
-  | MPlayAcq a _ => 8 + S + new_budget a + LOOPW
+  | MPlayAcq a _ pl => 8 + S + new_budget a pl + LOOPW
   | MPlayRaiseRel => 1
   | MPlayGoSet _ => 7 + S + LOOPW
   | MPlayHaltInit _ => 6 + S + LOOPW
@@ -68,8 +69,9 @@ Definition cur (s : state) (S : nat) : nat :=
 Fixpoint cost (sc : list cmd) (S : nat) : nat :=
   match sc with
   | [] => 0
-  | CPlay n xs :: r => 1 + (8 + (S + 1) + new_budget (chunkify n xs) + LOOPW) + cost r (S + 1)
-  | CPlayBad n xs k :: r => 1 + (8 + (S + 1) + new_budget (firstn k (chunkify n xs)) + LOOPW) + cost r (S + 1)
+  | CPlay n xs :: r => 1 + (8 + (S + 1) + new_budget (chunkify n xs) [] + LOOPW) + cost r (S + 1)
+  | CPlaySrc n xs :: r => 1 + (8 + (S + 1) + new_budget (chunkify n xs) (pull_counts n (length xs)) + LOOPW) + cost r (S + 1)
+  | CPlayBad n xs k :: r => 1 + (8 + (S + 1) + new_budget (firstn k (chunkify n xs)) [] + LOOPW) + cost r (S + 1)
   | CClose :: r => 1 + (10 + tail S) + cost r S
   | _ :: r => 1 + 4 + cost r S
   end.
